@@ -191,7 +191,8 @@ def history_suites(fmt, tier, flags=None, seeks=True, pols=False, serde=False):
     out.append(("struct-randhist", suite(fmt, rnd(q(tier, 2500, 30000), maxrec=5, maxfield=4, damage=25), {"upto_len_plus": 3}, rh,
                                          chunks=[[0], [1], [2, 3]], conf_sample=q(tier, 5, 10), slots=3, extra=2, flags=fl), 8))
     out.append(("struct-fixedhist", suite(fmt, rnd(q(tier, 600, 6000), maxrec=6, maxfield=3, damage=15), {"upto_len_plus": 1},
-                                          {"fixed": [SET0, EXACT(1), EXACT(2), EXACT(5),
+                                          {"fixed": [SET0, EXACT(1), EXACT(2), EXACT(5), EXACT(18446744073709551615),
+                                                     {"ops": [{"o": "next"}, {"o": "exact", "s": 0, "n": 1 << 62}], "tail": {"o": "next"}},
                                                      {"ops": [{"o": "next"}, {"o": "set", "s": 0}, {"o": "next"}, {"o": "exact", "s": 1, "n": 2}], "tail": {"o": "set", "s": 0}}]},
                                           chunks=[[0], [1]], conf_sample=q(tier, 8, 16), slots=2, extra=2, flags=fl), 4))
     return out
@@ -232,6 +233,24 @@ def fault_suites(fmt, tier):
     ]
 
 
+def near_capacity_inputs(fmt):
+    out = []
+    for cap in (512, 1024):
+        for first in (2, 3, 4):
+            for L in (cap - first + 1, cap - 1):      # does not fit behind the first record, fits into the buffer
+                if fmt == "fasta":
+                    a = [62] + [97] * (first - 2) + [10]
+                    b = [62, 98, 10] + [65] * (L - 4) + [10]
+                    out.append(a + b + [62, 99, 10, 65, 10])
+                else:
+                    # the shortest FASTQ record has 6 bytes ("@ LF LF + LF LF")
+                    a = [64, 10, 10, 43, 10, 10]
+                    n = (L - 6) // 2
+                    b = [64, 10] + [65] * n + [10, 43, 10] + [73] * n + [10]
+                    out.append(a + b + [64, 99, 10, 65, 10, 43, 10, 73, 10])
+    return out
+
+
 def policy_suites(fmt, tier):
     alpha = FA if fmt == "fasta" else FQ
     L = q(tier, 5, 6) if fmt == "fasta" else q(tier, 6, 7)
@@ -240,6 +259,10 @@ def policy_suites(fmt, tier):
         ("policy-enum%d" % L, suite(fmt, enum(alpha, L), [3, 4, 5], {"fixed": [NEXT, SET0, EXACT(2)]}, chunks=[[0]], pols=pols, slots=1, extra=2, sample=q(tier, 3 if fmt == "fasta" else 8, 0)), 8),
         ("policy-struct", suite(fmt, rnd(q(tier, 1500, 15000), maxrec=6, maxfield=6, damage=15), {"abs": [3, 4, 6, 8, 12], "rel": [-4, -1]},
                                 {"rand": {"n": 2, "len": 5, "seeks": True, "pols": True}}, chunks=[[0], [1]], pols=pols, conf_sample=6, slots=2, extra=3), 8),
+        # capacities of 512 and 1024 bytes: a very short record, then one that just fits into the buffer (it is cut off by the
+        # buffer end at offset 2..4 and has to be moved to the front, not to make the buffer grow)
+        ("policy-near-capacity", suite(fmt, {"list": near_capacity_inputs(fmt)}, [512, 1024], {"fixed": [NEXT, SET0]}, chunks=[[0]],
+                                       pols=[{"k": "refuse"}, {"k": "std"}], slots=1, extra=1), 2),
         # a policy that refuses, then a permissive policy installed with set_policy(): the stream must go on
         ("policy-takeover", suite(fmt, rnd(q(tier, 500, 5000), maxrec=4, maxfield=8, damage=0), [3, 4, 6, 8],
                                   {"fixed": [{"ops": [{"o": "next"}] * k + [{"o": "pol", "p": {"k": pk, "a": 1}}], "tail": {"o": "next"}} for k in (1, 2, 3) for pk in ("std", "plus")]
@@ -261,12 +284,15 @@ def build_jobs(prop, tier):
     elif prop == "C03":
         J.append(ReaderJob("c03", pair_suites("fasta", tier) + pair_suites("fastq", tier)))
     elif prop == "C04":
-        J.append(ReaderJob("c04", history_suites("fasta", tier) + history_suites("fastq", tier)))
+        # (also with policies installed in mid-stream, among them the retry after a refusal)
+        J.append(ReaderJob("c04", history_suites("fasta", tier) + history_suites("fastq", tier) + policy_suites("fasta", tier)[1:2] + policy_suites("fastq", tier)[1:2]
+                           + policy_suites("fasta", tier)[3:] + policy_suites("fastq", tier)[3:]))
     elif prop == "C05":
         # "from any reader state": also seeks after a source error (the last of the fault suites' histories seeks)
         J.append(ReaderJob("c05", plain_suites("fasta", tier, extra_hists=False)[:2] + plain_suites("fastq", tier, extra_hists=False)[:2]
                            + history_suites("fasta", tier) + history_suites("fastq", tier)
-                           + fault_suites("fasta", tier)[1:] + fault_suites("fastq", tier)[1:]))
+                           + fault_suites("fasta", tier)[1:] + fault_suites("fastq", tier)[1:]
+                           + policy_suites("fasta", tier)[3:] + policy_suites("fastq", tier)[1:2] + policy_suites("fastq", tier)[3:]))
     elif prop == "C06":
         J.append(ReaderJob("c06", plain_suites("fasta", tier)[-2:] + plain_suites("fastq", tier)[-2:] + history_suites("fasta", tier)[1:] + history_suites("fastq", tier)
                            + fault_suites("fasta", tier) + fault_suites("fastq", tier) + policy_suites("fasta", tier)[:2] + policy_suites("fastq", tier)[:2]))
@@ -290,7 +316,8 @@ def build_jobs(prop, tier):
     elif prop == "C17":
         # errors reached by next(), by record sets and after seeks - also after a seek the source refused
         J.append(ReaderJob("c17", plain_suites("fasta", tier) + plain_suites("fastq", tier)
-                           + history_suites("fastq", tier)[:1] + fault_suites("fastq", tier)[1:]))
+                           + history_suites("fastq", tier)[:1] + fault_suites("fastq", tier)[1:]
+                           + policy_suites("fastq", tier)[1:2] + policy_suites("fastq", tier)[3:]))
     elif prop == "C18":
         fl = {"alloc": True}
         reuse = []
@@ -307,7 +334,7 @@ def build_jobs(prop, tier):
         flv = {"serde": True, "views": True}
         J.append(ReaderJob("c19", plain_suites("fasta", tier, fl)[2:4] + plain_suites("fastq", tier, fl)[2:4] + history_suites("fasta", tier, fl, serde=True)[1:] + history_suites("fastq", tier, fl, serde=True)
                            + history_suites("fasta", tier, flv, serde=True)[2:] + history_suites("fastq", tier, flv, serde=True)[1:]))
-    if prop in ("C01", "C02", "C04", "C05", "C06", "C13", "C17"):
+    if prop in ("C01", "C02", "C04", "C05", "C06", "C09", "C13", "C14", "C17", "C18", "C19"):
         # long regular inputs (66 000 records and more): contents, counts, positions, the final error's line and a far seek at
         # sampled indices around 2^7, 2^8, 2^15, 2^16, judged by arithmetic (TraceLong.tla)
         J.append(SimpleTvJob("long", "long", "TraceLong", tier))
@@ -568,7 +595,7 @@ def view_suites(fmt, tier):
         # headers rich in blanks other than the space (tab, VT, FF, U+00A0, U+0085): id/desc split at the first SPACE only
         ("views-whitespace", suite(fmt, rnd(q(tier, 1200, 12000), maxrec=3, maxfield=6, damage=0, fieldalpha=[65, 66, 32, 32, 9, 9, 11, 12, 0xC2, 0xA0, 0x85]),
                                    [16, 64], {"fixed": [NEXT]}, chunks=[[0]], slots=1, extra=0, flags=fl), 4),
-        ("views-wellformed", suite(fmt, {"wf": {"n": q(tier, 300, 4000), "maxrec": 4, "maxfield": 8}}, {"abs": [3, 16, 64]}, {"fixed": [NEXT]}, chunks=[[0]], pair="C12", slots=1, extra=0, flags=fl), 4),
+        ("views-wellformed", suite(fmt, {"wf": {"n": q(tier, 300, 4000), "maxrec": 4, "maxfield": 8}}, {"abs": [3, 16, 64]}, {"fixed": [NEXT, SET0]}, chunks=[[0]], pair="C12", slots=1, extra=0, flags=fl), 4),
     ]
 
 
@@ -583,6 +610,7 @@ def build_jobs(prop, tier):
                 ReaderJob("c10views", view_suites("fasta", tier))]
     if prop == "C11":
         return [SimpleTvJob("writer", "writer", "TraceWriter", tier),
+                SimpleTvJob("long", "long", "TraceLong", tier),
                 ReaderJob("c11views", view_suites("fastq", tier) + view_suites("fasta", tier))]
     if prop == "C12":
         class J:
